@@ -106,6 +106,24 @@ Proof.
   intros blk e H. destruct (end_fields_from_source blk e H) as (H1 & H2 & _ & H4 & _). repeat split; try assumption; apply H2 || apply H4.
 Qed.
 
+From Peppi Require Import Gen.StartWiring Proofs.StartWiringLayout Gen.JsonShape Proofs.JsonShapeLayout.
+(* ---- how game_start hands the per-port arrays to player(n, ..) and collects the players, regenerated (Gen/StartWiring.v): for every
+   argument the block it comes from and the index used, the port range, the collecting pipeline (an Ok(None) player is dropped, an
+   error aborts the read).  The hand game_start IS the table-driven form, for every block *)
+Theorem C05_player_wiring_from_source : forall blk, game_start blk = game_start_wired blk.
+Proof. exact game_start_wiring_from_source. Qed.
+Theorem C05_players_from_source : forall blk t10 t13 t39 t311,
+  players_of blk t10 t13 t39 t311 =
+  players_of_tbl blk [("players_v1_0"%string, t10); ("players_v1_3"%string, t13); ("players_v3_9"%string, t39); ("players_v3_11"%string, t311)].
+Proof. exact players_of_from_source. Qed.
+(* ---- the JSON shape of Start / Player / End and their sub-records, regenerated from the struct declarations and serde attributes
+   (Gen/JsonShape.v): keys in declaration order, which are omitted when None, enum names; the hand renderings are the table-driven ones *)
+Theorem C05_json_from_source :
+  (forall s, json_start s = render json_fuel (JkStruct "Start") (gv_start s)) /\
+  (forall p, json_player p = render json_fuel (JkStruct "Player") (gv_player p)) /\
+  (forall e, json_end e = render json_fuel (JkStruct "End") (gv_end e)).
+Proof. exact (conj json_start_from_source (conj json_player_from_source json_end_from_source)). Qed.
+
 Print Assumptions C05_bytes_retained.
 Print Assumptions C05_start_fields_from_source.
 Print Assumptions C05_start_tails_from_source.
@@ -118,3 +136,6 @@ Print Assumptions C05_players.
 Print Assumptions C05_end.
 Print Assumptions C05_json_omits_absent.
 Print Assumptions C05_json_end_omits_absent.
+Print Assumptions C05_player_wiring_from_source.
+Print Assumptions C05_players_from_source.
+Print Assumptions C05_json_from_source.
